@@ -166,7 +166,14 @@ inductive Op where
   | fail (m : Nat)
   | refute (m : Nat) (inc : Nat)
   | markHealthy (m : Nat)
-  deriving Repr
+  /-- the public `tick()` -/
+  | tick
+  /-- the public `sync_time(incoming_time)` -/
+  | syncTime (t : Nat)
+  deriving DecidableEq, Repr
+
+/-- `tick` : advance the Lamport clock by one -/
+def tick (s : State) : State := { s with clock := s.clock + 1 }
 
 def apply (s : State) : Op → State
   | .merge b => (merge s b).1
@@ -175,6 +182,8 @@ def apply (s : State) : Op → State
   | .fail m => (fail s m).1
   | .refute m i => (refute s m i).1
   | .markHealthy m => (markHealthy s m).1
+  | .tick => tick s
+  | .syncTime t => syncTime s t
 
 def run (s : State) (ops : List Op) : State := ops.foldl apply s
 
@@ -192,6 +201,8 @@ def emitted (s : State) : Op → List Update
   | .fail m => emittedLocal (fail s m) m
   | .refute m i => emittedLocal (refute s m i) m
   | .markHealthy m => emittedLocal (markHealthy s m) m
+  | .tick => []
+  | .syncTime _ => []
 
 /-- every update merged or generated along a history (ghost) -/
 def seen (s : State) : List Op → List Update
